@@ -761,14 +761,14 @@ class Interp(ExprMixin, WhileMixin):
         if isinstance(v, (PyTuple, PyList)) and not (isinstance(v, PyList) and v.loop_parts):
             if (not has_star and len(v.items) != n) or (has_star and len(v.items) < n - 1):
                 self.event("unpack_mismatch", have=len(v.items), want=n)
-                self.may_raise("builtins.ValueError", definite=True)
-                raise PathAbort()
+                self.may_raise("builtins.ValueError", f"unpacking {len(v.items)} values into {n} targets", definite=True)
+                raise _Raise(self.make_exc("builtins.ValueError"), self.cur_where)
             return list(v.items)
         if isinstance(v, Const) and isinstance(v.v, (tuple, list)):
             if (not has_star and len(v.v) != n) or (has_star and len(v.v) < n - 1):
                 self.event("unpack_mismatch", have=len(v.v), want=n)
-                self.may_raise("builtins.ValueError", definite=True)
-                raise PathAbort()
+                self.may_raise("builtins.ValueError", f"unpacking {len(v.v)} values into {n} targets", definite=True)
+                raise _Raise(self.make_exc("builtins.ValueError"), self.cur_where)
             return [Const(x) for x in v.v]
         if isinstance(v, AbsList):
             need = n - 1 if has_star else n
